@@ -217,6 +217,99 @@ def minRepr : S → Int
   | [] => 0
   | x :: xs => xs.foldl (fun m y => if reprKey y < reprKey m then y else m) x
 
+/-! ### members beyond ints: the order by which `ReplSet.pop` chooses (`batteries._valueKey`, repair D85)
+
+```
+def _valueKey(x):
+    if isinstance(x, (frozenset, set)): return (type(x).__name__, sorted(_valueKey(y) for y in x))
+    if isinstance(x, tuple):            return (type(x).__name__, [_valueKey(y) for y in x])
+    return (type(x).__name__, repr(x))
+```
+A set-valued member is given by an ENUMERATION of its members (the iteration order of its own hash table, which
+differs between equal values); its key sorts the member keys, so it does not depend on the enumeration. -/
+
+/-- code points of an ASCII string (type names) -/
+def codes (s : String) : List Nat := s.toList.map Char.toNat
+
+/-- a set member: int; any other atom (None, bool, str, ...) given by its type name and its repr; tuple; frozenset
+given by an enumeration of its members -/
+inductive Member
+  | int (i : Int)
+  | atom (ty r : List Nat)
+  | tup (l : List Member)
+  | fset (l : List Member)
+  deriving Repr, Inhabited
+
+/-- the sort key: `(type name, repr)` or `(type name, [keys])` -/
+inductive Key
+  | leaf (ty r : List Nat)
+  | node (ty : List Nat) (ks : List Key)
+  deriving Repr, Inhabited
+
+/-- three-way lexicographic comparison of code-point lists (Python `str` comparison) -/
+def cmpNats : List Nat → List Nat → Ordering
+  | [], [] => .eq
+  | [], _ :: _ => .lt
+  | _ :: _, [] => .gt
+  | a :: as, b :: bs => if a < b then .lt else if b < a then .gt else cmpNats as bs
+
+mutual
+/-- three-way comparison of two keys as Python compares the tuples `(str, str)` / `(str, list)`: type name first,
+then the second component (keys with equal type names always have the same shape; leaf before node otherwise) -/
+def Key.cmp : Key → Key → Ordering
+  | .leaf t r, .leaf t' r' => (cmpNats t t').then (cmpNats r r')
+  | .leaf t _, .node t' _ => (cmpNats t t').then .lt
+  | .node t _, .leaf t' _ => (cmpNats t t').then .gt
+  | .node t ks, .node t' ks' => (cmpNats t t').then (Key.cmpList ks ks')
+/-- Python's list comparison: the first position where the lists differ decides; a proper prefix is smaller -/
+def Key.cmpList : List Key → List Key → Ordering
+  | [], [] => .eq
+  | [], _ :: _ => .lt
+  | _ :: _, [] => .gt
+  | a :: as, b :: bs => (Key.cmp a b).then (Key.cmpList as bs)
+end
+
+/-- Python's `<` on keys -/
+def Key.lt (a b : Key) : Bool := Key.cmp a b == .lt
+
+/-- insertion sort w.r.t. a strict order given as a Boolean function (`sorted(...)`; stable) -/
+def insertBy {α : Type} (lt : α → α → Bool) (x : α) : List α → List α
+  | [] => [x]
+  | y :: ys => if lt x y then x :: y :: ys else y :: insertBy lt x ys
+
+def isortBy {α : Type} (lt : α → α → Bool) : List α → List α
+  | [] => []
+  | x :: xs => insertBy lt x (isortBy lt xs)
+
+mutual
+def valueKey : Member → Key
+  | .int i => .leaf (codes "int") (reprKey i)
+  | .atom ty r => .leaf ty r
+  | .tup l => .node (codes "tuple") (valueKeys l)
+  | .fset l => .node (codes "frozenset") (isortBy Key.lt (valueKeys l))
+def valueKeys : List Member → List Key
+  | [] => []
+  | m :: ms => valueKey m :: valueKeys ms
+end
+
+/-- `min(enumeration, key=k)`: the first element with the smallest key, for ANY enumeration of the set's members
+(= iteration order of the hash table) -/
+def pickMinBy {α κ : Type} (lt : κ → κ → Bool) (k : α → κ) : List α → Option α
+  | [] => .none
+  | x :: xs => some (xs.foldl (fun m y => if lt (k y) (k m) then y else m) x)
+
+/-- the member `ReplSet.pop` removes, given the hash table's iteration order -/
+def chooseMember (l : List Member) : Option Member := pickMinBy Key.lt valueKey l
+
+/-- index (in the enumeration) of the member chosen -/
+def chooseIdx (l : List Member) : Option Nat :=
+  match l with
+  | [] => .none
+  | x :: xs =>
+    some ((xs.foldl (fun (acc : Nat × Key × Nat) y =>
+      let ky := valueKey y
+      if Key.lt ky acc.2.1 then (acc.2.2, ky, acc.2.2 + 1) else (acc.1, acc.2.1, acc.2.2 + 1)) (0, valueKey x, 1)).1)
+
 /-- `s.pop()` relative to a choice function; a choice outside the set falls back to the head so the
 function is total (`KeyError` on the empty set). -/
 def pop (choose : S → Int) (s : S) : Except Err (Int × S) :=
